@@ -34,7 +34,7 @@ def node_coq(n):
     if order is not None:
         kids.sort(key=lambda kv: order.index(kv[0]) if kv[0] in order else 10**6)
     s = coqlist(["(%s, %s)" % (coqstr(a), coqstr(b)) for a, b in sorted(n.get("s", {}).items())])
-    i = coqlist(["(%s, %s)" % (coqstr(a), "(%d)" % b) for a, b in sorted(n.get("i", {}).items())])
+    i = coqlist(["(%s, %s)" % (coqstr(a), "(%d)%%Z" % b) for a, b in sorted(n.get("i", {}).items())])
     c = coqlist(["(%s, %s)" % (coqstr(a), node_coq(b)) for a, b in kids])
     return "(Node %s %s %s %s)" % (coqstr(k), s, i, c)
 
@@ -89,7 +89,7 @@ def qcol_coq(c):
 
 
 def query_coq(q):
-    params = ["(mkP (%d) %s)" % (p["number"], qcol_coq(p["column"])) for p in q["params"]]
+    params = ["(mkP (%d)%%Z %s)" % (p["number"], qcol_coq(p["column"])) for p in q["params"]]
     cols = [qcol_coq(c)[6:-1] for c in q["columns"]]   # strip "(Some " ... ")"
     return "(mkQuery %s %s %s %s %s %s)" % (coqstr(q["name"]), coqstr(q["cmd"]), coqstr(q["sql"]),
                                            coqlist([coqstr(x) for x in q["comments"]]), coqlist(params), coqlist(cols))
@@ -249,6 +249,10 @@ class QGen:
             if r.random() < 0.3 and allow_param:
                 inner = "coalesce(%s, 'x')" % inner
             return "%s = %s(%s)" % (self.colref(vis), f, inner)
+        if k < 0.73 and allow_param:
+            f = r.choice(["concat", "substring", "unknownfn", "nullif", "round"])
+            args = [r.choice([self.ph(), self.ph(), self.ph() + "::text", self.colref(vis), "'x'"]) for _ in range(r.randint(2, 3))]
+            return "%s = %s(%s)" % (self.colref(vis), f, ", ".join(args))
         if k < 0.76:
             return "%s IS %sNULL" % (self.colref(vis), r.choice(["", "NOT "]))
         if k < 0.82 and depth < 2:
@@ -290,7 +294,10 @@ class QGen:
         if k < 0.92 and depth < 2:
             sub, _ = self.select(depth + 1, simple=True, one_col=True)
             return "EXISTS (%s)%s" % (sub, al)
-        if k < 0.96 and self.style != "none":
+        if k < 0.94 and self.style != "none":
+            f = r.choice(["concat", "plus", "unknownfn", "nullif"])
+            return "%s(%s, %s)%s" % (f, self.ph(), r.choice([self.ph(), self.ph() + "::int", self.colref(vis)]), al)
+        if k < 0.97 and self.style != "none":
             return self.ph() + r.choice(["", "::int", "::text"]) + al
         return self.colref(vis) + al
 
